@@ -2,7 +2,7 @@
     of the library as a function from a list of byte strings to a result
     class and a list of byte strings (the projected observables).  The Go
     harness implements the same table on top of the real code. *)
-From DV Require Import Base.Bytes Label.Model.
+From DV Require Import Base.Bytes Label.Model V4.Model.
 
 Definition nil_marker (o : option bytes) : bytes := match o with None => [x00] | Some _ => [x01] end.
 Definition obytes (o : option bytes) : bytes := match o with None => [] | Some b => b end.
@@ -33,11 +33,62 @@ Definition e_label_edit (args : list bytes) : res (list bytes) :=
   | _ => Err
   end.
 
+(** * DHCPv4 packets *)
+Definition obs_ip (ip : goip) : bytes := obytes ip.
+Definition all_keys_sorted (m : optmap) : list byte := sort_codes (map fst m).
+Definition obs_opts (m : optmap) : list bytes :=
+  flat_map (fun c => [[c]; match lookup c m with Some v => v | None => [] end]) (all_keys_sorted m).
+Definition obs_pkt4 (p : pkt4) : list bytes :=
+  [[n2b (p_op p)]; be16 (p_hwtype p); [n2b (p_hops p)]; p_xid p; be16 (p_secs p); be16 (p_flags p);
+   obs_ip (p_ciaddr p); obs_ip (p_yiaddr p); obs_ip (p_siaddr p); obs_ip (p_giaddr p);
+   p_chaddr p; p_sname p; p_file p] ++ obs_opts (p_opts p).
+
+Definition n_of_bytes := n_of_be.
+Definition ip_of_arg (b : bytes) : goip := match b with [] => None | _ => Some b end.
+
+Fixpoint opts_of_args (a : list bytes) (m : optmap) : optmap :=
+  match a with
+  | [c] :: v :: a' => opts_of_args a' (update_opt m c v)
+  | _ => m
+  end.
+
+(** packet from structured arguments (the generator's representation) *)
+Definition pkt_of_args (a : list bytes) : option pkt4 :=
+  match a with
+  | op :: hw :: hops :: xid :: secs :: flags :: ci :: yi :: si :: gi :: ch :: sn :: fl :: opts =>
+    Some (mkPkt4 (n_of_bytes op) (n_of_bytes hw) (n_of_bytes hops) xid (n_of_bytes secs) (n_of_bytes flags)
+                 (ip_of_arg ci) (ip_of_arg yi) (ip_of_arg si) (ip_of_arg gi) ch sn fl (opts_of_args opts []))
+  | _ => None
+  end.
+
+(** entry 10: dhcpv4.FromBytes(b) -> public fields and options *)
+Definition e_v4_dec (args : list bytes) : res (list bytes) :=
+  match args with [b] => let* p := dec4 b in Ok (obs_pkt4 p) | _ => Err end.
+(** entry 11: packet built from fields -> ToBytes *)
+Definition e_v4_enc (args : list bytes) : res (list bytes) :=
+  match pkt_of_args args with Some p => let* b := enc4 p in Ok [b] | None => Err end.
+(** entry 12: FromBytes(b).ToBytes() *)
+Definition e_v4_reenc (args : list bytes) : res (list bytes) :=
+  match args with [b] => let* p := dec4 b in let* b1 := enc4 p in Ok [b1] | _ => Err end.
+(** entry 13: Options.FromBytes(b) (no End required) -> options *)
+Definition e_v4_opts (args : list bytes) : res (list bytes) :=
+  match args with [b] => let* m := opts_from_bytes b false [] in Ok (obs_opts m) | _ => Err end.
+(** entry 14: packet built from fields -> ToBytes -> FromBytes -> fields *)
+Definition e_v4_encdec (args : list bytes) : res (list bytes) :=
+  match pkt_of_args args with
+  | Some p => let* b := enc4 p in let* p' := dec4 b in Ok (obs_pkt4 p')
+  | None => Err end.
+
 Definition run (entry : N) (args : list bytes) : res (list bytes) :=
   match entry with
   | 1 => e_label_from args
   | 2 => e_label_to args
   | 3 => e_label_reenc args
   | 4 => e_label_edit args
+  | 10 => e_v4_dec args
+  | 11 => e_v4_enc args
+  | 12 => e_v4_reenc args
+  | 13 => e_v4_opts args
+  | 14 => e_v4_encdec args
   | _ => Err
   end%N.
